@@ -60,6 +60,25 @@ def value_kind(expr, fnode, depth=0):
                 and n.targets[0].id == expr.id]
         if len(defs) == 1:
             return value_kind(defs[0].value, fnode, depth + 1)
+        if not defs:
+            # a row of the caller's dictionary: the loop / comprehension
+            # variable over <param>.items() / .values()
+            params = {p.arg for p in fnode.args.args}
+            for n in ast.walk(fnode):
+                gens = n.generators if isinstance(
+                    n, (ast.DictComp, ast.ListComp, ast.SetComp,
+                        ast.GeneratorExp)) else (
+                    [n] if isinstance(n, ast.For) else [])
+                for g in gens:
+                    it = g.iter
+                    if isinstance(it, ast.Call) and isinstance(
+                            it.func, ast.Attribute) and it.func.attr in (
+                            "items", "values") and isinstance(
+                            it.func.value, ast.Name) \
+                            and it.func.value.id in params and any(
+                                isinstance(x, ast.Name) and x.id == expr.id
+                                for x in ast.walk(g.target)):
+                        return "caller"
     return "unknown"
 
 
@@ -1423,3 +1442,69 @@ def rule_rf1(ctx):
             "is never re-examined, so the result still contains a vertex "
             "without an incoming or outgoing edge",
             instance=inst + ":fixpoint")
+
+
+VIEW_ATTRS = ("_graph_dict", "_out_dict", "_in_dict")
+
+
+def rule_dc1(ctx):
+    r = ctx.r
+    r.rule("DC1", "a view of the automaton (`_graph_dict`, `_out_dict`, "
+                  "`_in_dict`) is never one copy of a whole container that "
+                  "came from the caller (`copy.deepcopy(param)`, "
+                  "`copy.copy(param)`, `dict(param)`, `param.copy()`): "
+                  "deepcopy memoises, so per-vertex cells that are ONE "
+                  "object in the input (dict.fromkeys(vertices, {...}), a "
+                  "row reused for several states) stay one object in the "
+                  "view, and an edit of one vertex shows up at the others in "
+                  "that view only. The cells are created per vertex")
+    cls = fsa_class(ctx)
+    n = 0
+    funcs = list(cls.methods.values()) + list(
+        ctx.p.module_by_rel(FSA_REL).functions.values())
+    for f in funcs:
+        params = {p for p in f.params if p not in ("self", "cls")}
+        for st in ast.walk(f.node):
+            if not (isinstance(st, ast.Assign) and len(st.targets) == 1):
+                continue
+            t = st.targets[0]
+            if not (isinstance(t, ast.Attribute) and t.attr in VIEW_ATTRS
+                    and dotted(t.value) == "self"):
+                continue
+            n += 1
+            r.analysed(f)
+            v = st.value
+            whole = None
+            if isinstance(v, ast.Call):
+                fn = dotted(v.func)
+                if fn in ("copy.deepcopy", "copy.copy", "deepcopy", "dict") \
+                        and len(v.args) == 1 \
+                        and isinstance(v.args[0], ast.Name) \
+                        and v.args[0].id in params:
+                    whole = (fn, v.args[0].id)
+                elif isinstance(v.func, ast.Attribute) \
+                        and v.func.attr == "copy" \
+                        and isinstance(v.func.value, ast.Name) \
+                        and v.func.value.id in params:
+                    whole = (".copy()", v.func.value.id)
+            elif isinstance(v, ast.Name) and v.id in params:
+                whole = ("the object itself", v.id)
+            inst = f"{f.qualname}:{t.attr}"
+            if whole is None:
+                r.ok("DC1", inst, loc(f, st), norm_stmt(st)[:80],
+                     "built cell by cell")
+            else:
+                r.violation(
+                    "DC1", f"{f.fq}|{t.attr}|{whole[0]}", loc(f, st),
+                    norm_stmt(st)[:140],
+                    f"`self.{t.attr}` is {whole[0]} of the caller's "
+                    f"`{whole[1]}` as a whole: neighbour dictionaries that "
+                    "are one object in the input (dict.fromkeys(states, "
+                    "{...})) remain one object here, while the other views "
+                    "are rebuilt per vertex -- after add_edges / "
+                    "delete_vertex on one state this view lists the edge at "
+                    "every state that shared the dictionary and the views "
+                    "disagree", instance=inst)
+    if n == 0:
+        raise AnalysisError("DC1: no store to a view attribute found in FSA "
+                            "(anchors vanished)")
